@@ -28,6 +28,8 @@ Im(n, p, t, id) == [name |-> n, protocol |-> p, type |-> t,
 ImplPool == << Im("A", "can", "A", 1), Im("A2", "can", "A", 2), Im("A2", "can", "A", 1), Im("A", "uart", "A", 1),
                Im("Missing", "can", "Missing", 2), Im("A", "can", "A", 0), Im("A2", "can", "A", 0), Im("A", "uart", "A", 0),
                Im("B", "can", "B", 1), Im("A2", "uart", "Missing", 0),
+               (* the target of a binding names a declared ENUM (E), not a struct *)
+               Im("E", "can", "E", 3),
                (* a frame identifier of exactly 0, written out *)
                [Im("A", "can", "A", 1) EXCEPT !.fields = <<[name |-> "id", value |-> [i |-> 0]]>>],
                [Im("A2", "can", "A", 1) EXCEPT !.fields = <<[name |-> "id", value |-> [i |-> 0]]>>] >>
